@@ -102,7 +102,17 @@ func (p *PacketProcessor) ProcessPacketData(data []byte, _ *gopacket.CaptureInfo
 }
 
 func validPacket(decoded []gopacket.LayerType) bool {
-	return len(decoded) == 3 || (len(decoded) == 2 && decoded[0] == layers.LayerTypeIPv4)
+	// the frame itself must contain the whole header chain,
+	// otherwise the layers left over from a previous frame would be reported
+	switch len(decoded) {
+	case 3:
+		return decoded[0] == layers.LayerTypeEthernet &&
+			decoded[1] == layers.LayerTypeIPv4 && decoded[2] == layers.LayerTypeICMPv4
+	case 2:
+		return decoded[0] == layers.LayerTypeIPv4 && decoded[1] == layers.LayerTypeICMPv4
+	default:
+		return false
+	}
 }
 
 type PacketFiller struct {
